@@ -397,11 +397,6 @@ fn slice_copy_features(shape: &[usize], items: &[RItem]) -> String {
     if items.iter().any(|i| matches!(i, RItem::Index(x) if *x < 0)) {
         f.push("negative-index");
     }
-    if items.iter().zip(shape).any(|(i, &n)| {
-        matches!(i, RItem::Range { start, step, .. } if *step < 0 && (n == 0 || *start <= -(n as isize) - 1))
-    }) {
-        f.push("negative-step-start-before-first");
-    }
     if shape.len() > 4 {
         let reduced = (1..shape.len()).any(|d| match items.get(d) {
             Some(it) => RefArray::item_indices(it, shape[d], true).map(|(v, _)| v.len() != shape[d]).unwrap_or(false),
@@ -410,6 +405,11 @@ fn slice_copy_features(shape: &[usize], items: &[RItem]) -> String {
         if reduced {
             f.push("rank>4");
         }
+    }
+    if items.iter().zip(shape).any(|(i, &n)| {
+        matches!(i, RItem::Range { start, step, .. } if *step < 0 && (n == 0 || *start <= -(n as isize) - 1))
+    }) {
+        f.push("negative-step-start-before-first");
     }
     if f.is_empty() {
         ":copy-path".to_string()
@@ -1260,7 +1260,7 @@ fn main() {
     ck.assume("after a panic of an in-place operation on an owned tensor the tensor is not inspected further");
     ck.set_threads(16);
 
-    ck.prop("chains", ck.pick(300_000, 6_000_000), || case(false), oracle);
-    ck.prop("chains-special", ck.pick(60_000, 1_000_000), || case(true), oracle);
+    ck.prop("chains", ck.pick(200_000, 3_000_000), || case(false), oracle);
+    ck.prop("chains-special", ck.pick(40_000, 500_000), || case(true), oracle);
     ck.finish();
 }
